@@ -5,6 +5,7 @@ import Okane.Lemmas.Decimal96DivExact
 import Okane.Lemmas.Decimal96Bound
 import Okane.Lemmas.Decimal96RoundVal
 import Okane.Lemmas.Decimal96Overflow
+import Okane.Lemmas.Decimal96Text
 /-!
 # "rust_decimal is modelled as exact rationals": when that is true, and what happens otherwise
 
@@ -25,6 +26,10 @@ number denoted, `D96.wf` the crate's range (`mant < 2^96`, `scale ≤ 28`).
   rescaling, sign operations and comparison (`Decimal_cmp_val`): `Decimal_round_*`, `Decimal_rescale_*`, `Decimal_cmp`;
 * `Overflow` is reported by `+ - *` only when the exact result, rounded to an integer, does not fit 96 bits
   (`Decimal_mul_overflow`, `Decimal_add_overflow`);
+* text: `Decimal_display_from_str` - `Decimal::from_str(&d.to_string())` gives back `d` (value, scale, sign) for EVERY
+  representable decimal, through both accumulator phases of `parse_str_radix_10` and whichever of its `BIG` variants the
+  length selects; `Decimal_from_str_shape` - more generally every text `[-]digits[.digits]` with at most 28 places whose
+  digits denote a mantissa below 2^96 is read as exactly that number;
 * outside the range the crate does NOT always round: `Decimal_sub_defect` is a kernel-checked run of the model on the
   operands `34028236692093846346337460744 − 7922816251.4264337593543950335`, for which the crate (and the model, bit for
   bit) returns `68056473376264876441248487728` — twice the true difference (the borrow loop of `unaligned_add`).
@@ -220,6 +225,41 @@ theorem Decimal_from_i128 (n : Int) (s : Nat) :
     ((∃ d, tryFromI128WithScale n s = .ok d) ↔ (s ≤ 28 ∧ n.natAbs < 2 ^ 96)) ∧
     (s ≤ 28 → n.natAbs < 2 ^ 96 → ∃ d, tryFromI128WithScale n s = .ok d ∧ d.wf ∧ d.int = n ∧ d.scale = s) :=
   ⟨tryFromI128_err n s, tryFromI128_ok n s⟩
+
+/-! ## text -/
+
+/-- **`Decimal::from_str(&d.to_string()) == Ok(d)`**: for every representable decimal (`mant < 2^96`, `scale ≤ 28`) the
+crate's reader returns the mantissa, scale and sign its printer wrote - the only difference being that a zero printed with
+a minus sign (`-0.00`) is read as plain zero; hence value and scale always survive, and `d` itself does unless it is a
+negative zero. -/
+theorem Decimal_display_from_str (d : D96) (hw : d.wf) :
+    fromStr (String.ofList (display d)) = .ok (fromParts d.neg d.mant d.scale) ∧
+    val (fromParts d.neg d.mant d.scale) = val d ∧
+    ((d.mant = 0 → d.neg = false) → fromStr (String.ofList (display d)) = .ok d) := by
+  refine ⟨?_, ?_, ?_⟩
+  · simp [fromStr, fromStrBytes_display d hw]
+  · by_cases h : d.mant = 0
+    · simp [fromParts, val, D96.int, h]
+    · have : (d.mant != 0) = true := by simpa using h
+      simp [fromParts, val, D96.int, this]
+  · intro hz
+    simp [fromStr, fromStrBytes_display_eq d hw hz]
+
+/-- every text `[-] W [. F]` (`W` one or more digits, `F` one to 28 digits when there is a point) whose digits denote a
+number below 2^96 is read as that number with `|F|` places: no rounding, no error, in either accumulator phase -/
+theorem Decimal_from_str_shape (neg : Bool) (w frac : List Char) (hw : w ≠ []) (hwd : AllDigits w) (hfd : AllDigits frac)
+    (hfl : frac.length ≤ 28) (hb : accDigits 0 (w ++ frac) < 2 ^ 96) :
+    fromStr (String.ofList ((if neg then ['-'] else []) ++ w ++ (if frac = [] then [] else '.' :: frac))) =
+      .ok (fromParts neg (accDigits 0 (w ++ frac)) frac.length) := by
+  simp only [fromStr, String.toList_ofList]
+  exact fromStrBytes_shape neg w frac _ hw hwd hfd hfl hb
+
+/-- non-vacuity: the largest decimal, the smallest step, a negative zero, a 28-place fraction -/
+example : display ⟨true, 2 ^ 96 - 1, 28⟩ = "-7.9228162514264337593543950335".toList ∧
+    fromStr "-7.9228162514264337593543950335" = .ok ⟨true, 2 ^ 96 - 1, 28⟩ ∧
+    fromStr "-0.00" = .ok ⟨false, 0, 2⟩ ∧ display ⟨true, 0, 2⟩ = "-0.00".toList ∧
+    fromStr "0.0000000000000000000000000001" = .ok ⟨false, 1, 28⟩ := by
+  decide +kernel
 
 /-! ## outside the range: the crate's subtraction defect (kernel-checked run of the model; the tie shows the real crate does
 the same) -/
